@@ -764,7 +764,7 @@ def correspondence(ctx, res):
         for tag, ops in systematic_cases(fl):
             if not tag.startswith("oracle-only/"):
                 hs.append(run_history(fl, ops))
-    n = ctx.scale(45, 300)
+    n = ctx.scale(36, 230)
     for i in range(n):
         fl = "exp" if i % 3 else "sub"
         hs.append(random_history(ctx, "corr/%d" % i, fl, ctx.scale(25, 40), 0.3, ext=(i % 2 == 1)))
@@ -791,7 +791,7 @@ def oracle(ctx, res, budget=None):
     for fl in ("exp", "sub"):
         for tag, ops in systematic_cases(fl):
             run_case(tag, fl, ops)
-    n = budget or ctx.scale(60, 450)
+    n = budget or ctx.scale(50, 350)
     for i in range(n):
         fl = "exp" if i % 3 else "sub"
         rng = ctx.sub_rng("oracle/%d" % i)
